@@ -186,8 +186,10 @@ func hooksEqual(a, b []hookSnap) bool {
 func splitDocs(m string) []string {
 	var out []string
 	for _, d := range strings.Split("\n"+m, "\n---\n") {
+		// trailing newlines belong to the separator, not the document: the last document of a
+		// manifest carries one more than the same document in the middle
 		if strings.TrimSpace(d) != "" {
-			out = append(out, d)
+			out = append(out, strings.TrimRight(d, "\n"))
 		}
 	}
 	return out
